@@ -2,16 +2,19 @@
 KV and SQL payment stores answer alike."""
 from lib.verif import *
 import hashlib
+import json
 import shutil
 
 THEOREMS = [
     "C16_never_overpay", "C16_register_gate", "C16_init_gate", "C16_status_truth",
     "C16_terminal_stable", "C16_inflight_query_agrees", "C16_refinement_partial",
     "C16_backends_differ_refuted", "C16_overpay_beyond_uint64_refuted",
+    "C16_lin_checker_sound", "C16_linearised_never_overpay",
 ]
 MODULE = "LV.Payments.Props"
 TARGETS = ["theories/Payments/Props.vo", "theories/Payments/Exec.vo",
-           "theories/Payments/Examples.vo", "theories/Payments/Lin.vo"]
+           "theories/Payments/Examples.vo", "theories/Payments/Lin.vo",
+           "theories/Payments/LinProofs.vo"]
 HARNESS = ["payments/verif_store_test.go", "payments/verif_concurrent_test.go"]
 WARM = [{"pkg": "payments/db", "files": HARNESS, "tags": "verif test_db_sqlite"}]
 IMPORTS = ("From Coq Require Import List NArith Bool.\nImport ListNotations.\n"
@@ -621,6 +624,36 @@ def run(ctx):
         "(uint64 sums cannot wrap); outside it C16_overpay_beyond_uint64_refuted holds",
         "C16_refinement_partial hypothesis: attempt ids globally fresh at registration and "
         "settle/fail addressed through the owning payment hash (what the router does)"])
+    if ctx.replay:
+        # --replay of a recorded concurrent history (a non-linearisable history or a
+        # predicate failure): the schedule cannot be re-enacted, the recorded history IS
+        # the failing input; re-judge it with the current model / predicates.
+        rp = json.load(open(ctx.replay))
+        det = rp.get("detail", {})
+        hist = det.get("history(g,op,inv,ret,answer)")
+        if hist and det.get("backend") in ("kv", "sql"):
+            be = det["backend"]
+            row = {"case": det.get("concurrent_program"), "mode": det.get("mode", "disc"),
+                   "ng": det.get("goroutines"), be: hist}
+            for th, msg, i in conc_predicate(row, be)[:1]:
+                ctx.violation("impl_violates_predicate", "C16_" + th,
+                              {"backend": be, "first_failure": msg, "at_op": i,
+                               "history(g,op,inv,ret,answer)": hist},
+                              signature="C16 conc %s %s: %s" % (be, th, msg))
+            exe, xlog = build_lin_checker()
+            outs, err = run_lin(exe, [lin_line(be, hist)]) if exe else (None, xlog)
+            if outs is None:
+                ctx.violation("harness_failed", "replay", {"log": err}, signature="lin-run",
+                              failing_input=False)
+            elif outs[0].startswith("N") and row["mode"] == "disc":
+                ctx.violation("impl_violates_predicate", "C16 linearisability (Payments.Lin)",
+                              {"backend": be, "checker_output": outs[0],
+                               "history(g,op,inv,ret,answer)": hist},
+                              signature="C16 nonlinearisable %s replay" % be)
+            else:
+                ctx.note("replayed history: " + outs[0])
+            ctx.cov.update({"evaluations": 1, "rule": "replay of one recorded history"})
+            return
     env = {}
     if ctx.thorough:
         env["VERIF_CHUNK"] = "40"
